@@ -435,28 +435,35 @@ func (fx *Fx) builtinAppend(st *State, call *ast.CallExpr) Val {
 		return s
 	}
 	// Two cases as in Go: enough capacity (in place, sharing the backing array) or reallocation (fresh array).
-	h := st.heap(key, hs)
+	// They are explored as two branches (separate paths with `flag paths`, merged otherwise).
 	n := len(elems)
 	fits := c.define("fits", "Bool", fmt.Sprintf("(and (not (= (s_base %s) 0)) (<= (+ (s_len %s) %d) (s_cap %s)))", s.T, s.T, n, s.T))
-	// in-place array
-	inArr := fmt.Sprintf("(select %s (s_base %s))", h, s.T)
-	for i, v := range elems {
-		inArr = fmt.Sprintf("(store %s (+ (s_off %s) (s_len %s) %d) %s)", inArr, s.T, s.T, i, v.T)
-	}
-	// fresh array: prefix copied
-	r := st.allocRef()
-	na := c.freshConst("arr", "(Array Int "+es+")")
-	st.assume(fmt.Sprintf("(forall ((k!a Int)) (! (=> (and (<= 0 k!a) (< k!a (s_len %s))) (= (select %s k!a) (select (select %s (s_base %s)) (+ (s_off %s) k!a)))) :pattern ((select %s k!a))))", s.T, na, h, s.T, s.T, na))
-	frArr := na
-	for i, v := range elems {
-		frArr = fmt.Sprintf("(store %s (+ (s_len %s) %d) %s)", frArr, s.T, i, v.T)
-	}
-	cp := c.freshConst("cap", "Int")
-	st.assume(fmt.Sprintf("(>= %s (+ (s_len %s) %d))", cp, s.T, n))
-	nh := fmt.Sprintf("(ite %s (store %s (s_base %s) %s) (store %s %s %s))", fits, h, s.T, inArr, h, r, frArr)
-	st.setHeap(key, hs, nh)
-	res := fmt.Sprintf("(ite %s (mkSlice (s_base %s) (s_off %s) (+ (s_len %s) %d) (s_cap %s)) (mkSlice %s 0 (+ (s_len %s) %d) %s))", fits, s.T, s.T, s.T, n, s.T, r, s.T, n, cp)
-	return Val{T: c.define("app", "Slice", res), S: "Slice", GT: t}
+	tmp := types.NewVar(call.Pos(), fx.pkg.Types, "$app", t)
+	fx.branch(st, fits, func(b *State) {
+		h := b.heap(key, hs)
+		inArr := fmt.Sprintf("(select %s (s_base %s))", h, s.T)
+		for i, v := range elems {
+			inArr = fmt.Sprintf("(store %s (+ (s_off %s) (s_len %s) %d) %s)", inArr, s.T, s.T, i, v.T)
+		}
+		b.setHeap(key, hs, fmt.Sprintf("(store %s (s_base %s) %s)", h, s.T, inArr))
+		b.vars[tmp] = c.define("app", "Slice", fmt.Sprintf("(mkSlice (s_base %s) (s_off %s) (+ (s_len %s) %d) (s_cap %s))", s.T, s.T, s.T, n, s.T))
+	}, func(b *State) {
+		h := b.heap(key, hs)
+		r := b.allocRef()
+		na := c.freshConst("arr", "(Array Int "+es+")")
+		b.assume(fmt.Sprintf("(forall ((k!a Int)) (! (=> (and (<= 0 k!a) (< k!a (s_len %s))) (= (select %s k!a) (select (select %s (s_base %s)) (+ (s_off %s) k!a)))) :pattern ((select %s k!a))))", s.T, na, h, s.T, s.T, na))
+		frArr := na
+		for i, v := range elems {
+			frArr = fmt.Sprintf("(store %s (+ (s_len %s) %d) %s)", frArr, s.T, i, v.T)
+		}
+		cp := c.freshConst("cap", "Int")
+		b.assume(fmt.Sprintf("(>= %s (+ (s_len %s) %d))", cp, s.T, n))
+		b.setHeap(key, hs, fmt.Sprintf("(store %s %s %s)", h, r, frArr))
+		b.vars[tmp] = c.define("app", "Slice", fmt.Sprintf("(mkSlice %s 0 (+ (s_len %s) %d) %s)", r, s.T, n, cp))
+	})
+	res := st.vars[tmp]
+	delete(st.vars, tmp)
+	return Val{T: res, S: "Slice", GT: t}
 }
 
 // ---------------------------------------------------------------------------
@@ -791,6 +798,12 @@ func (fx *Fx) applyCall(st *State, fn *types.Func, recv *Val, args []Val, call *
 		fx.havocMods(st, ms)
 	}
 	applyObjFrames()
+	if !pure {
+		// whatever a callee returns exists when it returns
+		for i, v := range out {
+			fx.boundRefs(st, v.T, sig.Results().At(i).Type(), 0)
+		}
+	}
 	for _, e := range sp.Ensures {
 		env := &SpecEnv{fx: fx, st: st, old: pre, bound: bound, pos: specPos, pkg: calleePkg}
 		st.assume(fx.specBool(env, e.Expr))
@@ -846,7 +859,9 @@ func (fx *Fx) defaultCall(st *State, fn *types.Func, key string, recv *Val, args
 	fx.w.callMods(fx.pkg, c, call, ms, nil)
 	fx.havocMods(st, ms)
 	for i := 0; i < sig.Results().Len(); i++ {
-		out = append(out, fx.freshOfType(st, "res", sig.Results().At(i).Type()))
+		v := fx.freshOfType(st, "res", sig.Results().At(i).Type())
+		fx.boundRefs(st, v.T, sig.Results().At(i).Type(), 0)
+		out = append(out, v)
 	}
 	return out
 }
